@@ -526,6 +526,7 @@ unsigned long g_calls, g_w_h; int g_w_op; const char *g_w_sv; long g_w_i; const 
 static void xc_havoc_ghosts(void) { size_t a; g_k = a; g_calls = 0; g_w_h = 0; g_w_op = 0; g_w_sv = 0; g_w_i = 0; g_w_p = 0; }
 typedef struct xc_recpair { unsigned long first; xc_handle second; } xc_recpair;       /* value_type of std::map<size_t, std::unique_ptr<Recordable>> */
 typedef struct xc_recmap { xc_recpair *items; size_t count; } xc_recmap;
+#define XC_ID8(s) ((long)(((unsigned long)(s).rep_[0]) | ((unsigned long)(s).rep_[1] << 8) | ((unsigned long)(s).rep_[2] << 16) | ((unsigned long)(s).rep_[3] << 24) | ((unsigned long)(s).rep_[4] << 32) | ((unsigned long)(s).rep_[5] << 40) | ((unsigned long)(s).rep_[6] << 48) | ((unsigned long)(s).rep_[7] << 56)))
 #define MR_GHOSTS g_calls, g_w_h, g_w_op, g_w_sv, g_w_i, g_w_p
 """
 MR_POST = r"""
@@ -561,6 +562,7 @@ def _configure_mr(cfg):
     cfg.ext_q["Recordable::SetAttribute"] = lambda em, node, recv, args: "xc_mrec(%s, MOP_SetAttribute, %s, 0, (const void *)%s)" % (em.expr(unp(recv)), em.expr(args[0]), em.addr_of(args[1]))
     cfg.ext_q["Recordable::AddLink"] = lambda em, node, recv, args: "xc_mrec(%s, MOP_AddLink, (string_view){0}, (long)%s, (const void *)%s)" % (em.expr(unp(recv)), em.addr_of(args[1]), em.addr_of(args[0]))
     cfg.ext_q["Recordable::SetTraceFlags"] = lambda em, node, recv, args: "xc_mrec(%s, MOP_SetTraceFlags, (string_view){0}, (long)(%s).rep_, 0)" % (em.expr(unp(recv)), em.expr(args[0]))
+    cfg.ext_q["Recordable::SetIdentity"] = lambda em, node, recv, args: "xc_mrec(%s, MOP_SetIdentity, (string_view){0}, XC_ID8(%s), (const void *)%s)" % (em.expr(unp(recv)), em.expr(args[1]), em.addr_of(args[0]))
     cfg.ext_q["Recordable::SetResource"] = lambda em, node, recv, args: "xc_mrec(%s, MOP_SetResource, (string_view){0}, 0, (const void *)%s)" % (em.expr(unp(recv)), em.addr_of(args[0]))
     cfg.ext_q["Recordable::SetInstrumentationScope"] = lambda em, node, recv, args: "xc_mrec(%s, MOP_SetInstrumentationScope, (string_view){0}, 0, (const void *)%s)" % (em.expr(unp(recv)), em.addr_of(args[0]))
     cfg.opaque_records["sdk::resource::Resource"] = "xc_opaque"
@@ -591,6 +593,7 @@ contracts_mr = {
     "MultiRecordable_SetResource": mr_contract("MOP_SetResource", None, " && __CPROVER_is_fresh(resource, sizeof(*resource))", "g_w_p == resource"),
     "MultiRecordable_SetInstrumentationScope": mr_contract("MOP_SetInstrumentationScope", None, " && __CPROVER_is_fresh(instrumentation_scope, sizeof(*instrumentation_scope))", "g_w_p == instrumentation_scope"),
     "MultiRecordable_SetTraceFlags": mr_contract("MOP_SetTraceFlags", None, "", "g_w_i == (long)flags.rep_"),
+    "MultiRecordable_SetIdentity": mr_contract("MOP_SetIdentity", None, " && __CPROVER_is_fresh(span_context, sizeof(*span_context))", "g_w_p == span_context && g_w_i == XC_ID8(parent_span_id)"),
     "MultiRecordable_SetStartTime": mr_contract("MOP_SetStartTime", None, "", "g_w_i == start_time.nanos_since_epoch_"),
     "MultiRecordable_SetSpanKind": mr_contract("MOP_SetSpanKind", None, "", "g_w_i == (long)span_kind"),
     "MultiRecordable_SetDuration": mr_contract("MOP_SetDuration", None, "", "g_w_i == (long)duration"),
@@ -598,7 +601,7 @@ contracts_mr = {
 }
 proofs_mr = [Proof("MultiRecordable_" + m, [("MultiRecordable::" + m, n)], enforce="MultiRecordable_" + m, timeout=300,
                    desc="the operation reaches the recordable of every processor exactly once with the caller's arguments")
-             for m, n in (("SetName", 1), ("SetStatus", 2), ("SetAttribute", 2), ("AddEvent", 3), ("SetStartTime", 1), ("SetSpanKind", 1), ("SetDuration", 1), ("AddLink", 2), ("SetResource", 1), ("SetInstrumentationScope", 1), ("SetTraceFlags", 1))]
+             for m, n in (("SetName", 1), ("SetStatus", 2), ("SetAttribute", 2), ("AddEvent", 3), ("SetStartTime", 1), ("SetSpanKind", 1), ("SetDuration", 1), ("AddLink", 2), ("SetResource", 1), ("SetInstrumentationScope", 1), ("SetTraceFlags", 1), ("SetIdentity", 2))]
 for _p in proofs_mr:
     _p.tu = TU_MR
     _p.pre_c = MR_PRE.replace("typedef struct xc_recpair", "#include \"xc_trace_boundary.h\"\ntypedef struct xc_recpair")
